@@ -72,5 +72,23 @@ def verify(contract, module, qualname, variant=None, timeout_ms=10000):
                               contract.canary, "refuted (hypotheses are not contradictory)" if refuted else "PROVED: hypotheses contradictory")))
         except E.Unsupported as e:
             out.append(ob("%s:canary" % fnid, fnid, ERROR, "V", "", 0.0, "canary not evaluable: %s" % e))
+    # A failed *proof-support* obligation (loop invariant init / preserved / decreases, lemma) means the proof of this function is
+    # LOST, not that its contract is refuted: invariants are scaffolding of my proof and a harmless edit (reordered independent
+    # loops, a different but equivalent search) can break them.  Then nothing about this function is claimed at proof level on
+    # this run — the other failures of the same function rest on the unproved invariants, so they are not verdicts either — and its
+    # bounded contract checks (engines S / B of the same property) decide.  A failed contract obligation (post / safe / raises /
+    # call precondition) with all proof-support obligations discharged IS a verdict and stays FAILED.
+    support = [o for o in out if "id" in o and o["status"] == FAILED and _is_support(o["id"])]
+    if support:
+        for o in out:
+            if "id" in o and o["status"] == FAILED:
+                o["status"] = "unproved"
+                o["detail"] = "[proof lost: %s not discharged] %s" % (support[0]["id"].split(":", 1)[1], o["detail"])
+        out.append({"_prooflost": fnid, "reason": "%d proof-support obligation(s) not discharged, first: %s" % (len(support), support[0]["id"])})
     out.append({"_stats": dict(v_functions=1, v_vcs=len(vcs), v_time=round(time.time() - t0, 3))})
     return out
+
+
+def _is_support(oid):
+    name = oid.split(":", 1)[1] if ":" in oid else oid
+    return name.startswith("loop") or name.startswith("lemma:")
